@@ -23,7 +23,8 @@ RULE = ("part 'validate': generated types (fields by for_types / for_value / ser
         "acceptance predicate written from the documentation decides accept/reject; MemoryLogger.validate() must raise iff the "
         "predicate rejects; check_for_errors must raise UnflushedTracebacks whenever a traceback is unflushed, even if validation "
         "would fail too. Typed messages are written plainly, with an explicit action of the captured logger, or while an action bound to "
-        "another logger is current (tracebacks likewise). part 'capture': capture_logging/validate_logging-decorated unittest methods with outcome pass/fail/error/"
+        "another logger is current (tracebacks likewise); tracebacks of related exception classes are flushed by class (exactly the class and its subclasses); both parts "
+        "are repeated in an interpreter started with -O. part 'capture': capture_logging/validate_logging-decorated unittest methods with outcome pass/fail/error/"
         "skip, assertion callbacks none/passing/failing/raising, bodies logging valid/invalid/traceback messages are run with "
         "unittest.TestResult; afterwards the default logger IS the previous one (identity and behavioural probe through a "
         "registered destination) and the result is unsuccessful iff the body or the log checks failed. non-trivial = deviation "
